@@ -27,14 +27,14 @@ _CODEC_NOTE = ("Trusted: Python integer semantics for + - * // % << >> & | as tr
 
 CHECKS = {
     "C02": (
-        "float interval analysis with branch refinement (custom interprocedural ast interpreter)",
-        "Only the clause 'cell_to_lonlat(c) has longitude in [-180, 180]' is decided: the returned tuple of a5.core.cell.cell_to_lonlat is evaluated over float intervals, inlining DodecahedronProjection.inverse, to_spherical, to_lonlat and rad_to_deg through the resolved call graph; theta is the result of math.atan2 (range [-pi, pi] by the library contract), comparisons with constants refine the interval on both branches, loops that shift by 360 are unrolled while feasible. The latitude range, 'strictly inside its own ring' and 'maps back to the same cell' are numeric and NOT decided (DESIGN.md section 4).",
+        "float interval analysis with branch refinement and attained-bound flags (custom interprocedural ast interpreter) + memo-key analysis on the heap/effect model",
+        "Only the clause 'cell_to_lonlat(c) has longitude in [-180, 180]' is decided: the returned tuple of a5.core.cell.cell_to_lonlat is evaluated over float intervals, inlining DodecahedronProjection.inverse, to_spherical, to_lonlat and rad_to_deg through the resolved call graph; theta is the result of math.atan2 (range [-pi, pi] by the library contract), comparisons with constants refine the interval on both branches, loops that shift by 360 are unrolled while feasible; record fields (origins[k].axis) are the hull of what the constructor calls in the repository give them; a bound counts as attained only if it is a constant, a full library range on unconstrained arguments or a record value carried through monotone arithmetic -- exceeding [-180, 180] through an attained bound is a violation, otherwise undecided. C02.2: no memo / cache / slot on the call trees of cell_to_lonlat and lonlat_to_cell has a definite key defect (incomplete or non-injective key, inexact hit test, read and written under different keys, decorator store shared by several functions), i.e. the two conversions answer from their arguments alone. The latitude range, 'strictly inside its own ring' and 'maps back to the same cell' are numeric and NOT decided (DESIGN.md section 4).",
         "Trusted: math.atan2 range; IEEE doubles (end points outward rounded, 1e-9 degree tolerance on the inclusion). Assumes atan2 attains its range over the globe (cells tile the sphere), so an out-of-range end point is attained.",
         "DESIGN.md section 3, C02",
     ),
     "C12": (
         "size summaries: sequence lengths as polynomials in the symbolic segment count (custom ast evaluator)",
-        "Only the counting / closure / defaults clause is decided: cell_to_boundary and everything that builds its ring (_get_pentagon, tiling.get_*_vertices, PentagonShape.{__init__, clone, split_edges, get_vertices, transformers}, normalize_longitudes) are evaluated over a domain that tracks only sequence lengths, as polynomials in the symbolic `segments`, for a partition of resolutions and all combinations of the two options (absent / explicit; 'auto', None, 1, 3, symbolic s >= 2). Decided: length == (3 at resolution 1, else 5) * segments + [closed_ring]; the closing element is ring[0], appended exactly once iff closed_ring; None/'auto'/absent agree; split_edges keeps each corner first in its edge group; the example passes keys the callee reads. Simplicity, orientation, latitude range and longitude jumps are numeric and NOT decided.",
+        "Only the counting / closure / defaults clause is decided: cell_to_boundary and everything that builds its ring (_get_pentagon, tiling.get_*_vertices, PentagonShape.{__init__, clone, split_edges, get_vertices, transformers}, normalize_longitudes) are evaluated over a domain that tracks only sequence lengths, as polynomials in the symbolic `segments`, for a partition of resolutions and all combinations of the two options (absent / explicit; 'auto', None, 1, 3, symbolic s >= 2). Decided: length == (3 at resolution 1, else 5) * segments + [closed_ring]; the closing element is ring[0], appended exactly once iff closed_ring; None/'auto'/absent agree; split_edges keeps each corner first in its edge group; the example passes keys the callee reads. Simplicity, orientation, latitude range and longitude jumps are numeric and NOT decided. C12.7/C12.8 (heap/effect model): no list that outlives the call is grown or shrunk by the ring-building functions, and cell_to_boundary does not store into its options argument.",
         "Trusted: Python list semantics. Appends under undecided conditions or in while loops give UNDECIDED.",
         "DESIGN.md section 3, C12",
     ),
@@ -58,7 +58,7 @@ CHECKS = {
     ),
     "C05": (
         "abstract interpretation over bit-field linear forms (custom ast interpreter)",
-        "serialize / get_resolution / deserialize are interpreted abstractly on the generic cell (face, segment, S symbolic, S a priori unbounded), one run per resolution. Per resolution the analysis decides: the fit check bounds S to exactly its admissible range, the fields are disjoint and the id lies in [1, 2**64), the marker scanner returns r independently of the data bits, the decoder recovers face/segment/S/resolution, re-encoding is the identity; face-table facts come from the import-time code of origin.py. All 2**56 positions are covered at once. A violated obligation names the construct and shows the two disagreeing forms (with a witness valuation when the forms are not syntactically comparable).",
+        "serialize / get_resolution / deserialize are interpreted abstractly on the generic cell (face, segment, S symbolic, S a priori unbounded), one run per resolution. Per resolution the analysis decides: the fit check bounds S to exactly its admissible range, the fields are disjoint and the id lies in [1, 2**64), the marker scanner returns r independently of the data bits, the decoder recovers face/segment/S/resolution, re-encoding is the identity; face-table facts come from the import-time code of origin.py. All 2**56 positions are covered at once. A violated obligation names the construct and shows the two disagreeing forms (with a witness valuation when the forms are not syntactically comparable). C05.10 (heap/effect model): the record deserialize returns is allocated in the call, not a memoised or module-level object.",
         _CODEC_NOTE,
         "DESIGN.md section 3, C05",
     ),
@@ -82,7 +82,7 @@ CHECKS = {
     ),
     "C10": (
         "structural extraction + inductive-invariant check by abstract interpretation of generic loop iterations",
-        "uncompact's two-pass shape is extracted; one generic iteration of each pass is interpreted for every pair (cell resolution, target) in [-1,30]^2: finer-than-target cells raise in the sizing pass on every path, before the result exists; sizing adds s(r,t); the filling pass writes exactly the block offset..offset+s-1 with the summarised cell_to_children(cell, target) family (or the cell itself), all of resolution t, and advances the offset by the same s; the allocation length is the accumulated size; both passes iterate the argument itself in order; the argument is never mutated.",
+        "uncompact's two-pass shape is extracted; one generic iteration of each pass is interpreted for every pair (cell resolution, target) in [-1,30]^2: finer-than-target cells raise in the sizing pass on every path, before the result exists; sizing adds s(r,t); the filling pass writes exactly the block offset..offset+s-1 with the summarised cell_to_children(cell, target) family (or the cell itself), all of resolution t, and advances the offset by the same s; the allocation length is the accumulated size; both passes iterate the argument itself in order; the argument is never mutated. C10.6: neither the list cell_to_children hands over nor the result of uncompact is a shared (memoised / module-level) object.",
         _CODEC_NOTE + " List entries are valid cell ids.",
         "DESIGN.md section 3, C10",
     ),
